@@ -716,6 +716,21 @@ pub(super) fn fetch_of_i64(take: i64, ctx: &mut Context) -> Fetch {
 pub(super) fn translate_select_item(cid: rq::CId, ctx: &mut Context) -> Result<SelectItem> {
     let expr = translate_cid(cid, ctx)?.into_ast();
 
+    // verification hook: what this call inspects (shape of the expression, expected name,
+    // state of the name generator); `clone().gen()` peeks at the next name without consuming it
+    #[cfg(prqlc_verif)]
+    let verif_in = (
+        match &expr {
+            sql_ast::Expr::CompoundIdentifier(parts) => serde_json::json!({
+                "compound": parts.iter().map(|p| p.value.clone()).collect::<Vec<_>>()
+            }),
+            sql_ast::Expr::Identifier(ident) => serde_json::json!({"ident": ident.value.clone()}),
+            _ => serde_json::json!("other"),
+        },
+        ctx.anchor.column_names.get(&cid).cloned(),
+        ctx.anchor.col_name.clone().gen(),
+    );
+
     let inferred_name = match &expr {
         // sql_ast::Expr::Identifier is used for s-strings
         sql_ast::Expr::CompoundIdentifier(parts) => parts.last().map(|p| &p.value),
@@ -739,11 +754,29 @@ pub(super) fn translate_select_item(cid: rq::CId, ctx: &mut Context) -> Result<S
         });
         ctx.anchor.column_names.insert(cid, ident.to_string());
 
+        #[cfg(prqlc_verif)]
+        log::debug!(
+            "verif:select_item {}",
+            serde_json::json!({"cid": cid.get(), "expr": verif_in.0, "expected": verif_in.1,
+                "item": {"alias": ident.clone()}, "gen_before": verif_in.2,
+                "gen_after": ctx.anchor.col_name.clone().gen(),
+                "name_after": ctx.anchor.column_names.get(&cid).cloned()})
+        );
+
         return Ok(SelectItem::ExprWithAlias {
             alias: translate_ident_part(ident, ctx),
             expr,
         });
     }
+
+    #[cfg(prqlc_verif)]
+    log::debug!(
+        "verif:select_item {}",
+        serde_json::json!({"cid": cid.get(), "expr": verif_in.0, "expected": verif_in.1,
+            "item": "unnamed", "gen_before": verif_in.2,
+            "gen_after": ctx.anchor.col_name.clone().gen(),
+            "name_after": ctx.anchor.column_names.get(&cid).cloned()})
+    );
 
     Ok(SelectItem::UnnamedExpr(expr))
 }
